@@ -11,7 +11,6 @@ import (
 	"testing"
 	"time"
 
-	"github.com/buzzfeed/sso/verifharness/oracle"
 	"github.com/buzzfeed/sso/verifharness/sut"
 	"github.com/buzzfeed/sso/verifharness/vh"
 )
@@ -55,6 +54,11 @@ const (
 func TestProp(t *testing.T) {
 	if len(emailClasses) != nClasses || len(answerClasses) != nAnswers {
 		t.Fatalf("class tables out of sync")
+	}
+	for _, c := range emailClasses {
+		if coarse[c] == "" {
+			t.Fatalf("e-mail class %s has no coarse name", c)
+		}
 	}
 	env := vh.GetEnv()
 	rep := vh.NewReport("C11", "exploration")
@@ -228,7 +232,7 @@ func runCase(rep *vh.Report, env vh.Env, ps *sut.ProxyStack, u *upstream, ci, i,
 		}
 	default:
 		kc.Login.Verdict = "error"
-		rep.Violate("c11", i, fmt.Sprintf("login-unexpected-outcome status=%d session=%v emailclass=%s", cb.Status, lr.Cookie != "", class),
+		rep.Violate("c11", i, fmt.Sprintf("login-unexpected-outcome status=%d session=%v email=%s", cb.Status, lr.Cookie != "", coarse[class]),
 			"the callback neither set a session and redirected nor answered 403 without a session", kc)
 		return
 	}
@@ -263,10 +267,12 @@ func runCase(rep *vh.Report, env vh.Env, ps *sut.ProxyStack, u *upstream, ci, i,
 	rep.Distinct(fmt.Sprintf("%s|%s|%s|%s|%s|%s|%s|%s", maskName(u.mask), u.av, u.dv, u.gv, class, ansClass, kc.Login.Verdict, kc.Cookie))
 
 	kindsCfg := maskName(u.mask)
-	answerTag := ""
-	if u.mask&kGrp != 0 {
-		answerTag = " groups=" + ansClass
+	// signatures name the coarse input class only; the exact rule set / e-mail / answer are in the case
+	inputTag := " email=" + coarse[class]
+	if u.mask&kGrp != 0 && provFailed {
+		inputTag += " groups=provider-error"
 	}
+	loginDiffers := false
 	if ref.overall == dontCare {
 		rep.Count("dontcare_login", 1)
 		rep.Count("dontcare_emailclass_"+class, 1)
@@ -274,8 +280,12 @@ func runCase(rep *vh.Report, env vh.Env, ps *sut.ProxyStack, u *upstream, ci, i,
 		rep.Count("reference_compared_login", 1)
 		rep.Count("reference_"+ref.verdict(), 1)
 		if kc.Login.Verdict != ref.verdict() {
-			rep.Violate("c11", i, fmt.Sprintf("login-differs: login=%s reference=%s emailclass=%s kinds=%s passing=%s%s",
-				kc.Login.Verdict, ref.verdict(), class, kindsCfg, strings.Join(ref.kinds(pass), "+"), answerTag),
+			loginDiffers = true
+			by := ""
+			if ref.overall == pass {
+				by = " admitted-by=" + ref.admittedBy()
+			}
+			rep.Violate("c11", i, fmt.Sprintf("login-differs: login=%s reference=%s%s%s", kc.Login.Verdict, ref.verdict(), by, inputTag),
 				"the verdict of the real validators at /oauth2/callback differs from the documented meaning of the allow rules", kc)
 		}
 	}
@@ -351,7 +361,7 @@ func runCase(rep *vh.Report, env vh.Env, ps *sut.ProxyStack, u *upstream, ci, i,
 				if singleKind {
 					rep.Count("consistency_only_compared", 1)
 					if v == "deny" {
-						rep.Violate("c11", i, fmt.Sprintf("inconsistent(single-kind, reference silent): login=admit later=deny site=%s kinds=%s emailclass=%s", st.name, kindsCfg, class),
+						rep.Violate("c11", i, fmt.Sprintf("inconsistent(single-kind, reference silent): login=admit later=deny site=%s kinds=%s", st.name, kindsCfg),
 							"admitted at login, refused later with unchanged facts although only one rule kind is configured", kc)
 					}
 				}
@@ -378,8 +388,12 @@ func runCase(rep *vh.Report, env vh.Env, ps *sut.ProxyStack, u *upstream, ci, i,
 				rep.Violate("c11", i, fmt.Sprintf("inconsistent: login=admit later=deny site=%s admitted-by=%s failing=%s", st.name, ref.admittedBy(), failing),
 					"a user admitted at login (any-of, as documented) is refused later although the facts are unchanged", kc)
 			case ref.overall == fail && v == "admit":
-				rep.Violate("c11", i, fmt.Sprintf("later-differs: site=%s cookie=login later=admit reference=deny emailclass=%s kinds=%s%s", st.name, class, kindsCfg, answerTag),
-					"a user no configured rule admits is served", kc)
+				// login already differed from the reference (reported there); the later moment agrees with login
+				rep.Count("later_differs_like_login", 1)
+				if !loginDiffers {
+					rep.Violate("c11", i, fmt.Sprintf("later-differs: site=%s cookie=login later=admit reference=deny%s", st.name, inputTag),
+						"a user no configured rule admits is served", kc)
+				}
 			}
 			continue
 		}
@@ -397,7 +411,12 @@ func runCase(rep *vh.Report, env vh.Env, ps *sut.ProxyStack, u *upstream, ci, i,
 		}
 		rep.Count("later_compared_minted_cookie", 1)
 		if v != ref.verdict() {
-			rep.Violate("c11", i, fmt.Sprintf("later-differs: site=%s cookie=minted later=%s reference=%s emailclass=%s kinds=%s%s", st.name, v, ref.verdict(), class, kindsCfg, answerTag),
+			if loginDiffers && v == kc.Login.Verdict {
+				// same root as the login disagreement reported above
+				rep.Count("later_differs_like_login", 1)
+				continue
+			}
+			rep.Violate("c11", i, fmt.Sprintf("later-differs: site=%s cookie=minted later=%s reference=%s%s", st.name, v, ref.verdict(), inputTag),
 				"the verdict on a later request differs from the documented meaning of the allow rules", kc)
 		} else {
 			rep.Count("minted_refused_"+strings.Replace(st.name, "-", "_", -1), 1)
@@ -497,5 +516,3 @@ func runEmpty(rep *vh.Report, env vh.Env, i int) {
 		}
 	}
 }
-
-var _ = oracle.Rules{}
